@@ -296,11 +296,16 @@ def state_fields(ctx: Ctx) -> StateFields:
     # the insertion function: construction-phase function with the pattern
     #   for d in <deps>: self.A[t].add(d); self.C[d].add(t)
     best = None
+    fallback = None
     for fn in st.construction:
         sn = fn.self_name
         if sn is None:
             continue
-        for loop in [n for n in walk_local(fn.node) if isinstance(n, ast.For) and isinstance(n.target, ast.Name)]:
+        all_loops = [n for n in walk_local(fn.node) if isinstance(n, ast.For) and isinstance(n.target, ast.Name)]
+        # innermost loops first: the edge-registration loop is the one directly containing the add() calls
+        snapshot = list(all_loops)
+        all_loops.sort(key=lambda lp: -sum(1 for o in snapshot if o is not lp and any(x is lp for x in ast.walk(o))))
+        for loop in all_loops:
             dv = loop.target.id
             by_task: list[str] = []
             by_dep: list[str] = []
@@ -317,11 +322,14 @@ def state_fields(ctx: Ctx) -> StateFields:
                     elif sk[1].id == dv and call.args[0].id != dv:
                         by_dep.append(sk[0])
                         tvar = call.args[0].id
-            if by_task or by_dep:
+            if by_task and by_dep:
                 best = (fn, loop, tvar, dv, by_task, by_dep)
                 break
+            if (by_task or by_dep) and fallback is None:
+                fallback = (fn, loop, tvar, dv, by_task, by_dep)
         if best:
             break
+    best = best or fallback
     if best is None:
         raise AnalysisError(f'no dependency-edge registration loop found in the construction phase of {st.cls.name}')
     fn, loop, tvar, dv, by_task, by_dep = best
